@@ -95,13 +95,13 @@ def fuzzySpecWeak (F : Fmt) (rel abs : Tol) (a b : NdArr) : Option Bool :=
 /-- the formula at one entry for operands of format `F ≠ binary64` with arbitrary tolerances, as
     numpy's promotion rules evaluate it: a weak tolerance is rounded to `F` and the arithmetic
     stays in `F`; a strong relative tolerance (float64 array / `np.float64`) makes the product
-    binary64, which the in-place `*=` casts back to `F` (two roundings); a strong absolute
+    binary64, and it stays binary64 (out-of-place product since fix fa67d80; one rounding); a strong absolute
     tolerance enters the `max` unrounded (binary64). -/
 def mixedFormula (F : Fmt) (a b : Int) (rel : Nat) (relWeak : Bool) (abs : Nat) (absWeak : Bool) : Bool :=
   let m := max a.natAbs b.natAbs
   let prod : Option Nat :=
     if relWeak then (rndMag F rel 0).bind fun r => rndMag F (m * r) UNIT
-    else (rndMag f64 (m * rel) UNIT).bind fun p => rndMag F p 0
+    else rndMag f64 (m * rel) UNIT
   let t : Option Nat := if absWeak then rndMag F abs 0 else some abs
   leInf (rndMag F (b - a).natAbs 0) (maxInf prod t)
 
